@@ -158,8 +158,8 @@ def plan(tier):
     for n in ns:
         tasks.append(('A', dict(storage=None, rows=0, strategy='default', n=n)))
     deep = tier == 'thorough'
-    for skind, size, L in (('Interval', 2, 6 if deep else 5), ('Geometric', 3, 5 if deep else 4),
-                           ('Uniform', 3, 5 if deep else 4), ('Batch', None, 5 if deep else 4),
+    for skind, size, L in (('Interval', 2, 6 if deep else 5), ('Geometric', 3, 4),
+                           ('Uniform', 3, 4), ('Batch', None, 5 if deep else 4),
                            ('Interval', 1, 5 if deep else 4), ('Geometric', 2, 5 if deep else 4)):
         for strategy in ('joint', 'product'):
             tasks.append(('B', dict(storage=skind, size=size, strategy=strategy, L=L, pool=4 if deep else 3)))
